@@ -124,7 +124,7 @@ def parse_config_file(path: str, kwargs: dict):
                 kwargs["url_list"] = val
 
             else:
-                kwargs[key.lower()] = val
+                kwargs["announce"] = val
 
         elif key.lower() == "piece-length":
             kwargs["piece_length"] = val
